@@ -478,10 +478,16 @@ func newReal(cfg Cfg, probe bool) *real {
 		seen := map[string]bool{}
 		for _, rec := range cfg.Init {
 			p := strings.SplitN(rec, "~", 2)
-			if seen[p[0]] {
-				continue // WithInitialRecord panics on a duplicate id; the model keeps the last one, scripts avoid it
+			key := p[0]
+			if cfg.Icpt != "" {
+				key = namedIcpt(cfg.Icpt)(key)
 			}
-			seen[p[0]] = true
+			if seen[p[0]] || seen["\x00"+key] {
+				// WithInitialRecord panics on a duplicate id, NewCollection on two ids the interceptor maps to
+				// one; the model keeps the last one, scripts avoid it
+				continue
+			}
+			seen[p[0]], seen["\x00"+key] = true, true
 			opts = append(opts, resource.WithInitialRecord(p[0], parseMsg(p[1])))
 		}
 		r.coll = resource.NewCollection(opts...)
